@@ -8,4 +8,4 @@ Extraction "c22_model.ml"
   init step run run_strict run_thread size lost_wakeup_state multi_receiver thread_idle_done
   lw_progs lw_sched
   minit mstep mrun mrun_thread consumer_stuck prods_idle next_of_tail
-  minit_medium med_step med_step_alt.
+  minit_medium med_step med_step_alt send_live queue_send_live recv_live.
